@@ -186,4 +186,31 @@ SizeLaw(v) ==
         /\ 4 * Len(RecordCells(v.specs[k])) = RecordSize(v.specs[k])
         /\ RecordSize(v.specs[k]) = AnnouncedSize(Flags(v.specs[k]))
   /\ Len(AssetContent(v).data) = 4 + 4 * Len(Concat([k \in 1..Len(v.specs) |-> RecordCells(v.specs[k])])) + 4
+
+\* ------------------------------------------------------------------ values too large to travel as JSON
+(* rule = [n_specs, present (names of the optional fields every spec carries), named]: the harness builds
+   n_specs such specs; the specification decides from the rule what the container header must announce.
+   The round trip must succeed whatever these numbers are (2^16 is not a limit of the format). *)
+BigSpec(rule) ==
+  [name |-> IF rule.named THEN Str(<<110>>) ELSE NoStr,
+   f |-> [n \in FieldNames |-> LET i == CHOOSE i \in 1..NF : FName(i) = n
+                                   on == \E k \in 1..Len(rule.present) : rule.present[k] = n
+                               IN IF FKind(i) = "str" THEN (IF on THEN Str(<<118>>) ELSE NoStr)
+                                  ELSE [some |-> on, v |-> <<0, 0, 0, 0>>]]]
+BigRuleOK(rule) == \A k \in 1..Len(rule.present) : rule.present[k] \in FieldNames
+BigDataSize(rule) == 4 + rule.n_specs * RecordSize(BigSpec(rule)) + 4
+BigStrings(rule) ==
+  rule.n_specs * ((IF rule.named THEN 1 ELSE 0)
+                  + Cardinality({ i \in 1..NF : FKind(i) = "str" /\ Present(BigSpec(rule), i) }))
+BigHeaderOK(ev) ==
+  /\ BigRuleOK(ev.rule)
+  /\ Len(ev.head) = 32
+  /\ Rd32(ev.head, 0, "le") = ev.len
+  /\ Rd32(ev.head, 4, "le") = BigDataSize(ev.rule)
+  /\ Rd32(ev.head, 8, "le") = BigStrings(ev.rule)
+  /\ Rd32(ev.head, 12, "le") = 0
+\* the rule's totals agree with the general definitions (checked on a small instance in MC_AssetBinary)
+BigRuleLaw(rule) ==
+  LET c == AssetContent([flags |-> <<1, 2, 3, 4>>, specs |-> [k \in 1..rule.n_specs |-> BigSpec(rule)]]) IN
+  Len(c.data) = BigDataSize(rule) /\ Len(c.text) = BigStrings(rule)
 =============================================================================
